@@ -312,6 +312,25 @@ def search(ctx):
                     n0, n1 = float(np.ravel(res[0].noise_sd)[0]) if np.ndim(res[0].noise_sd) else float(res[0].noise_sd), float(np.ravel(res[1].noise_sd)[0]) if np.ndim(res[1].noise_sd) else float(res[1].noise_sd)
                     if abs(n0 - n1) > 1e-10 or (not colour and abs(n0 - wn) > 1e-8):
                         ctx.violation("C16:average-noise", "relative noise of the averaged image wrong or order dependent (%r, %r, expected %r)" % (n0, n1, wn), dict(info, kind="average"))
+                    # averaging onto a reference image that is a region of the frame (a cropped hologram keeps its coordinates)
+                    if not colour and nx >= 3 and ny >= 3:
+                        full = load_image(paths[0], spacing=spx)
+                        # at least two pixels per axis: the spacing is read off the reference image
+                        a0, c0 = int(rng.integers(0, nx - 1)), int(rng.integers(0, ny - 1))
+                        a1, c1 = int(rng.integers(a0 + 2, nx + 1)), int(rng.integers(c0 + 2, ny + 1))
+                        roi = full.isel(x=slice(a0, a1), y=slice(c0, c1))
+                        ctx.tried("average-roi", (nx, ny, a0, a1, c0, c1, i))
+                        avr = load_average(paths, refimg=roi)
+                        want_roi = stack.mean(0)[a0:a1, c0:c1]
+                        okc = np.allclose(avr.x.values, roi.x.values, atol=1e-12) and np.allclose(avr.y.values, roi.y.values, atol=1e-12)
+                        if not okc or avr.values.squeeze().shape != want_roi.squeeze().shape or not (np.abs(avr.values.squeeze() - want_roi.squeeze()).max() <= 1e-10):
+                            ctx.violation("C16:average-roi", "load_average onto the region [%d:%d, %d:%d] of the frame is not the pixelwise mean at the pixels its coordinates name" % (a0, a1, c0, c1),
+                                          dict(info, kind="average-roi", region=[a0, a1, c0, c1]))
+                        wnr = (stack.std(0)[a0:a1, c0:c1] / want_roi).mean()
+                        nr = float(np.ravel(avr.noise_sd)[0]) if np.ndim(avr.noise_sd) else float(avr.noise_sd)
+                        if np.isfinite(wnr) and not (abs(nr - wnr) <= 1e-8):
+                            ctx.violation("C16:average-roi-noise", "relative noise of the region [%d:%d, %d:%d] is %r, expected %r" % (a0, a1, c0, c1, nr, wnr),
+                                          dict(info, kind="average-roi", region=[a0, a1, c0, c1]))
             except Exception as ex:
                 import traceback
                 ctx.violation("C16:raises:%s" % type(ex).__name__, "image I/O raised %r" % (ex,), dict(kind="raises", tb=traceback.format_exc()[-800:]))
